@@ -166,10 +166,13 @@ type Conn struct {
 	in     *dir // we read from
 	out    *dir // we write to
 	closed bool
-	rdl    time.Time
-	wdl    time.Time
-	local  addr
-	remote addr
+	// failNext: the next Write call on this end fails once with a timeout and
+	// accepts nothing (set by harnesses right before an operation)
+	failNext bool
+	rdl      time.Time
+	wdl      time.Time
+	local    addr
+	remote   addr
 }
 
 // Link is a duplex connection with its two ends and the wire-taps.
@@ -314,7 +317,8 @@ func (c *Conn) Write(p []byte) (int, error) {
 	t := c.yield("net.write")
 	d := c.out
 	done := 0
-	if d.cfg.FailWriteCall > 0 && d.writeCalls+1 == d.cfg.FailWriteCall && len(p) > 0 {
+	if (c.failNext || (d.cfg.FailWriteCall > 0 && d.writeCalls+1 == d.cfg.FailWriteCall)) && len(p) > 0 {
+		c.failNext = false
 		d.writeCalls++
 		fTransient.Hit()
 		c.w.Note("fault", "link "+c.name+" write call fails once with a timeout, 0 bytes accepted")
@@ -450,6 +454,12 @@ func (c *Conn) Close() error {
 	c.in.wake(&c.in.writers)
 	return nil
 }
+
+// FailNextWrite makes the next Write call on this end fail once (timeout, no
+// byte accepted); the connection stays usable.
+//
+//go:norace
+func (c *Conn) FailNextWrite() { c.failNext = true }
 
 // CloseWrite half-closes the sending direction (peer reads EOF after drain).
 //
